@@ -9,6 +9,7 @@ import TrionModel.Driver.Seg
 import TrionModel.Driver.Scope
 import TrionModel.Driver.Tridas
 import TrionModel.Driver.Front
+import TrionModel.Driver.Simp
 /-! `trion-model`: one request per line on stdin, one reply per line on stdout.
 The first word selects the component; every request is self-contained (pure). -/
 open Trion.Driver
@@ -25,6 +26,7 @@ def dispatch : List String → String
   | "scope" :: r => Scope.handle r
   | "tridas" :: r => Tridas.handle r
   | "front" :: r => Front.handle r
+  | "simp" :: r => Simp.handle r
   | ["ping"] => "pong"
   | _ => "bad-op"
 
